@@ -38,7 +38,7 @@ Inductive op1 :=
 (* operations on the heap of caches of one history; cache 0 is the original *)
 Inductive hop :=
 | On (i : nat) (o : op1)
-| Copy (i : nat)                    (* caches.append(caches[i].copy()) *)
+| Copy (i : nat)                    (* caches.append(caches[i].copy())  or  copy.copy(caches[i]) *)
 | EqCache (i j : nat)               (* caches[i] == caches[j] *)
 | UpdateFrom (i j : nat).           (* order = list(caches[j]); caches[i].update(caches[j]); outcome = order *)
 
